@@ -766,4 +766,107 @@ theorem bdiv_bin_uiui_eq (n k : ℕ) (hk : ODD_FACTORIAL_TABLE_LIMIT < k) (h2k :
     simp at h
   · exact h
 
+/-! ## `ASSERT (cnt < GMP_NUMB_BITS)` (bin_uiui.c:346): binomial (n, k) has fewer than 64 factors of two when n < 2^64 -/
+
+theorem popc_succ_eq (f a : ℕ) : popc (f + 1) a = a % 2 + popc f (a / 2) := by
+  rw [popc]
+  by_cases h : a = 0
+  · subst h; cases f <;> simp [popc]
+  · simp [h]
+
+/-- Kummer for p = 2, as an inequality: adding a + b (+ carry-in c) below 2^f produces at most f − 1 carries -/
+theorem popc_add_le : ∀ f, 1 ≤ f → ∀ a b c, c ≤ 1 → a + b + c < 2 ^ f → popc f a + popc f b + c + 1 ≤ popc f (a + b + c) + f := by
+  intro f hf
+  induction f, hf using Nat.le_induction with
+  | base =>
+    intro a b c hc h
+    have ha : a ≤ 1 := by omega
+    have hb : b ≤ 1 := by omega
+    interval_cases a <;> interval_cases b <;> interval_cases c <;> simp_all [popc]
+  | succ f hf ih =>
+    intro a b c hc h
+    rw [pow_succ] at h
+    have h2 : (a + b + c) / 2 = a / 2 + b / 2 + (a % 2 + b % 2 + c) / 2 := by omega
+    have h3 : (a + b + c) % 2 = (a % 2 + b % 2 + c) % 2 := by omega
+    have := ih (a / 2) (b / 2) ((a % 2 + b % 2 + c) / 2) (by omega) (by omega)
+    rw [popc_succ_eq, popc_succ_eq, popc_succ_eq f (a + b + c), h2, h3]
+    omega
+
+theorem choose_not_dvd_two_pow_64 (n k : ℕ) (hn : n < B) (hk : k ≤ n) : ¬ 2 ^ 64 ∣ n.choose k := by
+  intro hdvd
+  obtain ⟨C', hC'⟩ := hdvd
+  have h1 := factorial_two_adic n hn
+  have h2 := factorial_two_adic k (by omega)
+  have h3 := factorial_two_adic (n - k) (by omega)
+  have hmul := Nat.choose_mul_factorial_mul_factorial hk
+  have hle := popc_add_le 64 (by omega) k (n - k) 0 (le_refl _ |>.trans (by omega)) (by
+    rw [B_eq] at hn; norm_num; omega)
+  simp only [Nat.add_zero] at hle
+  rw [show k + (n - k) = n by omega] at hle
+  have hp1 := popc_le 64 k
+  have hp2 := popc_le 64 (n - k)
+  have hp3 := popc_le 64 n
+  unfold popcount at h1 h2 h3
+  generalize popc 64 k = sk at *
+  generalize popc 64 (n - k) = sm at *
+  generalize popc 64 n = sn at *
+  -- 2^(64 + (k - sk) + (n-k - sm)) divides n! = 2^(n - sn) · odd
+  have hd : 2 ^ (64 + (k - sk) + (n - k - sm)) ∣ 2 ^ (n - sn) * oddPart (n !) := by
+    rw [← h1, ← hmul, hC', h2, h3]
+    refine ⟨C' * oddPart (k !) * oddPart ((n - k)!), ?_⟩
+    rw [pow_add, pow_add]; ring
+  have hodd := (oddPart_spec (n !) (Nat.factorial_ne_zero n)).1
+  have hcop : Nat.Coprime (2 ^ (64 + (k - sk) + (n - k - sm))) (oddPart (n !)) := by
+    apply Nat.Coprime.pow_left
+    rw [Nat.Prime.coprime_iff_not_dvd Nat.prime_two]; omega
+  have := hcop.dvd_of_dvd_mul_right hd
+  have := (Nat.pow_dvd_pow_iff_le_right (by omega : 1 < 2)).mp this
+  omega
+
+/-- the state in which the `while (1)` loop of mpz_bdiv_bin_uiui ends -/
+def bdivFinal (n k : ℕ) : BdivSt :=
+  bdivLoop k (log_n_max n) (min (SOME_THRESHOLD - 1 + max (3 * (1 + n / 64) / 2) SOME_THRESHOLD) k + 1) k
+    { np := 1, nn := 1, i := n - k + 1, i2cnt := 0, j := ODD_FACTORIAL_TABLE_LIMIT + 1, jjj := ODD_FACTORIAL_TABLE_MAX,
+      j2cnt := fac2cntTab (ODD_FACTORIAL_TABLE_LIMIT / 2 - 1), kmax := log_n_max k, numfac := 1, ok := true }
+
+theorem bdiv_bin_uiui_unfold (n k : ℕ) : bdiv_bin_uiui n k =
+    if !(bdivFinal n k).ok then none else some ((bdivFinal n k).np <<< ((bdivFinal n k).i2cnt - (bdivFinal n k).j2cnt)) := rfl
+
+/-- `cnt = i2cnt - j2cnt` (bin_uiui.c:343) is a difference of naturals (no wrap) and satisfies `ASSERT (cnt < GMP_NUMB_BITS)`:
+    mpn_lshift is called with a legal count -/
+theorem bdiv_shift_count (n k : ℕ) (hk : ODD_FACTORIAL_TABLE_LIMIT < k) (h2k : 2 * k ≤ n) (hn : n < B) :
+    (bdivFinal n k).j2cnt ≤ (bdivFinal n k).i2cnt ∧ (bdivFinal n k).i2cnt - (bdivFinal n k).j2cnt < 64 := by
+  obtain ⟨b1, b2, b3, b4⟩ := bdiv_init_consts
+  obtain ⟨hWk1, hWk8, _⟩ := log_n_max_spec k (by omega)
+  have hinit : LInv k (n - k + 1) (log_n_max k)
+      { np := 1, nn := 1, i := n - k + 1, i2cnt := 0, j := ODD_FACTORIAL_TABLE_LIMIT + 1, jjj := ODD_FACTORIAL_TABLE_MAX,
+        j2cnt := fac2cntTab (ODD_FACTORIAL_TABLE_LIMIT / 2 - 1), kmax := log_n_max k, numfac := 1, ok := true } :=
+    ⟨1, by simp only [Nat.one_mul, Nat.add_sub_cancel]; exact b1, by simp, b2, b3, by simp, le_refl 1,
+      by simp [B_eq], by simp only [Nat.sub_self, Nat.add_zero]; rw [Nat.mod_eq_of_lt (by omega)], le_refl 1,
+      by simp only; omega, by simp only; omega, hWk1, le_refl _⟩
+  have htot := bdivLoop_total n k (by omega) h2k hn k _ hinit
+    ⟨rfl, by simp only [pow_one, Nat.one_mul, pow_two]; exact Nat.le_mul_of_pos_right B B_pos, Or.inr ⟨rfl, rfl, rfl, by simp only; omega⟩⟩
+    (by simp only; omega)
+  have hpost := bdivLoop_spec n k (min (SOME_THRESHOLD - 1 + max (3 * (1 + n / 64) / 2) SOME_THRESHOLD) k + 1) (by omega) h2k hn k _ hinit
+  obtain ⟨e1, e2⟩ := hpost htot
+  change (bdivFinal n k).np * 2 ^ (bdivFinal n k).i2cnt = 2 ^ (bdivFinal n k).j2cnt * n.choose k at e1
+  change (bdivFinal n k).np % 2 = 1 at e2
+  generalize bdivFinal n k = r at e1 e2 ⊢
+  have hle : r.j2cnt ≤ r.i2cnt := by
+    have hd : 2 ^ r.j2cnt ∣ r.np * 2 ^ r.i2cnt := ⟨_, e1⟩
+    have hcop : Nat.Coprime (2 ^ r.j2cnt) r.np := by
+      apply Nat.Coprime.pow_left
+      rw [Nat.Prime.coprime_iff_not_dvd Nat.prime_two]; omega
+    exact (Nat.pow_dvd_pow_iff_le_right (by omega)).mp (hcop.dvd_of_dvd_mul_left hd)
+  refine ⟨hle, ?_⟩
+  by_contra hge
+  have h64 : 64 ≤ r.i2cnt - r.j2cnt := by omega
+  have hC : r.np * 2 ^ (r.i2cnt - r.j2cnt) = n.choose k := by
+    have : r.np * 2 ^ (r.i2cnt - r.j2cnt) * 2 ^ r.j2cnt = n.choose k * 2 ^ r.j2cnt := by
+      rw [mul_assoc, ← pow_add, Nat.sub_add_cancel hle, e1, mul_comm]
+    exact Nat.eq_of_mul_eq_mul_right (by positivity) this
+  apply choose_not_dvd_two_pow_64 n k hn (by omega)
+  rw [← hC]
+  exact Dvd.dvd.mul_left (Nat.pow_dvd_pow 2 h64) _
+
 end Mpir.Numth
